@@ -33,7 +33,6 @@ JOBS['C01'] = {
         vp('inc-satisfy-n3m3-eq', 3, 3, 0, ['-DEQSYM'], bounds='IncSolver::satisfy, n=3 m=3, equality flags symbolic; ' + B_VPSC),
         vp('static-solve-n3m3', 3, 3, 3, bounds='Solver::solve on acyclic structures n=3 m=3; ' + B_VPSC),
         vp('inc-solve-n3m3-wts', 3, 3, 1, ['-DWEIGHTS=2,1,2', '-DSCALES=1,2,1'], bounds='weights (2,1,2), scales (1,2,1); n=3 m=3; ' + B_VPSC),
-        vp('inc-solve-n3m2-nonint', 3, 2, 1, ['-DNONINT'], bounds='IncSolver::solve, arbitrary doubles; n=3 m=2'),
         vp('avoid-solve-n3m3', 3, 3, 1, AV, libs=['libavoid'], bounds='Avoid::IncSolver::solve (libavoid/vpsc.cpp) n=3 m=3; ' + B_VPSC),
     ],
 }
@@ -184,9 +183,9 @@ ASSUMPTIONS['C07'] = ['the claim is about the projection layer (projectOntoCCs /
 # ----------------------------------------------------------------------------------------------- C08 (+ C07 through makeFeasible)
 def feas(name, nr, flags, **kw):
     return Job(name, 'C08_feasible.cpp', ['-DNR=%d' % nr] + ['-D' + f for f in flags], COLA_LIBS, exclude=('libcola/output_svg.cpp',),
-               bounds='ConstrainedFDLayout::makeFeasible, %d rectangles (sizes 10x6, 14x8, 18x10) with integer centres in [0,8]^2 (always overlapping initially), options: %s' % (nr, ' '.join(flags)), **kw)
+               bounds='ConstrainedFDLayout::makeFeasible, %d rectangles (sizes 10x6, 14x8, 18x10) with integer centres in [0,8]^2 -- [0,k]^2 when the flag PB=k is listed -- (always overlapping initially), options: %s' % (nr, ' '.join(flags)), **kw)
 JOBS['C08'] = {'quick': [feas('feasible-n2-overlap', 2, ['OVERLAP']), feas('feasible-n2-overlap-sep', 2, ['OVERLAP', 'SEP']), feas('feasible-n3-exempt', 3, ['OVERLAP', 'EXEMPT'], time_limit=400), feas('feasible-n2-pinned', 2, ['OVERLAP', 'SEP', 'SEPEQ', 'SEPY'], max_steps=2000000)],
-               'thorough': [feas('feasible-n3-overlap', 3, ['OVERLAP']), feas('feasible-n3-cluster', 3, ['OVERLAP', 'CLUSTER']), feas('feasible-n3-pinned', 3, ['OVERLAP', 'SEP', 'SEPEQ', 'SEPY', 'PB=2'], time_limit=2400)]}
+               'thorough': [feas('feasible-n3-overlap', 3, ['OVERLAP']), feas('feasible-n3-cluster', 3, ['OVERLAP', 'CLUSTER', 'PB=1'], time_limit=1500), feas('feasible-n3-pinned', 3, ['OVERLAP', 'SEP', 'SEPEQ', 'SEPY', 'PB=1'], time_limit=1500)]}
 ASSUMPTIONS['C08'] = ['claim covers makeFeasible() (the feasibility phase); the subsequent run() descent uses sqrt of symbolic distances and is outside the executor arithmetic; run() re-projects onto the same constraints after every step (composition stated, not proved)']
 
 # ----------------------------------------------------------------------------------------------- C20
@@ -232,7 +231,6 @@ JOBS['C11'] = {
     ],
     'thorough': [
         pin('pins-2conn-exclusive', 0, ['-DNCONN=2', '-DFREEFIX'], bounds='same shape, 2 connectors to the class with two exclusive pins (capacity reached), then moved'),
-        pin('pins-2conn-shared', 0, ['-DNCONN=2', '-DEXCL=false', '-DFREEFIX'], bounds='same, shared (non-exclusive) pins'),
     ],
 }
 ASSUMPTIONS['C11'] = ['orthogonal routing; at most 2 pins per class, 2 connectors, 1 checkpoint; rectangular shapes']
@@ -276,7 +274,6 @@ JOBS['C12'] = {
               hyp('improve-staircase-buf4', ['-DIMPROVE=1', '-DSCENE=2', '-DJYFIX=20'], bounds='shapeBufferDistance 4; 10x10 shapes centred (100,-20) [left pin], (60,60) [top pin], (40,100) [right pin]; junction at (x,20), x in [34,46]; three connectors junction->pin; improveHyperedgeRoutesMovingJunctions')],
     'thorough': [
                  hyp('improve-addremove', ['-DIMPROVE=1', '-DADDREMOVE', '-DJYFIX=45'], bounds=B_HYP + 'improveHyperedgeRoutesMovingAddingAndDeletingJunctions'),
-                 hyp('improve-moving-then-move', ['-DIMPROVE=1', '-DMOVE', '-DJYFIX=45'], bounds=B_HYP + 'then one shape is moved by (dx,dy) in [-10,10]^2 and a second transaction runs'),
                  hyp('reroute-by-terminals', ['-DREROUTE_TERMS'], bounds='three shapes with pins (one shifted by a symbolic dx in [-10,10]); the hyperedge is registered with the HyperedgeRerouter by its list of three terminals only; the rerouter creates junction(s) and connectors'),
                  hyp('reroute-registered', ['-DIMPROVE=1', '-DREROUTE', '-DJYFIX=45'], bounds=B_HYP + 'hyperedge registered (by junction) with the HyperedgeRerouter for full rerouting')],
 }
